@@ -208,7 +208,19 @@ func parseContractFile(path, pkgPath string) (*ContractFile, error) {
 				lastSp = sp
 				curLem = nil
 			}
-		case "requires", "ensures", "panics_if", "assume", "decreases", "induct", "props":
+		case "after":
+			// after <callee> assume <expr>: assumed call-site contract
+			callee, r2 := splitWord(rest)
+			kw, r3 := splitWord(r2)
+			if kw != "assume" || cur == nil {
+				return nil, fmt.Errorf("%s:%d: expected 'after <callee> assume <expr>'", path, ln+1)
+			}
+			c := &Clause{Kind: "after", Name: callee, Line: ln + 1, File: path, Text: r3}
+			lastCl = c
+			lastSp = nil
+			pending = append(pending, c)
+			cur.Clauses = append(cur.Clauses, c)
+		case "requires", "ensures", "panics_if", "assume", "decreases", "induct", "props", "commit":
 			if word == "props" && curLem != nil {
 				curLem.Props = strings.Split(strings.TrimSpace(rest), ",")
 				continue
@@ -233,6 +245,19 @@ func parseContractFile(path, pkgPath string) (*ContractFile, error) {
 				return nil, fmt.Errorf("%s:%d: clause outside func/lemma", path, ln+1)
 			}
 		default:
+			if strings.HasPrefix(word, "commit#") && cur != nil {
+				n, err := strconv.Atoi(word[7:])
+				if err != nil {
+					return nil, fmt.Errorf("%s:%d: bad commit ordinal", path, ln+1)
+				}
+				c := &Clause{Kind: "commit", Loop: n, Line: ln + 1, File: path}
+				c.Props, c.Name, c.Text = clauseTags(rest)
+				lastCl = c
+				lastSp = nil
+				pending = append(pending, c)
+				cur.Clauses = append(cur.Clauses, c)
+				continue
+			}
 			if strings.HasPrefix(word, "loop#") && cur != nil {
 				n, err := strconv.Atoi(word[5:])
 				if err != nil {
